@@ -87,7 +87,7 @@ package env
 //@ requires [C13] unlocked: nolocks()
 //@ modifies e.values, mapof(e.values)
 //@ ensures dot: strContains(symbol, ".") ==> result == ErrSymbolContainsDot && e.values == old(e.values) && mapdom(e.values) == old(mapdom(e.values)) && mapvals(e.values) == old(mapvals(e.values))
-//@ ensures def: !strContains(symbol, ".") ==> result == nil && has(e.values, symbol) && e.values[symbol] == value
+//@ ensures [C12 C04 C11] def: !strContains(symbol, ".") ==> result == nil && has(e.values, symbol) && e.values[symbol] == value
 //@ ensures others: forall k string :: k != symbol ==> (has(e.values, k) <==> old(has(e.values, k))) && (has(e.values, k) ==> e.values[k] == old(e.values[k]))
 //@ critical 0 atomic: has(e.values, symbol) && e.values[symbol] == value && (forall k string :: k != symbol ==> (has(e.values, k) <==> acq(has(e.values, k))) && (has(e.values, k) ==> e.values[k] == acq(e.values[k])))
 
@@ -142,7 +142,7 @@ package env
 //@ props C12 C04
 //@ requires e != nil
 //@ requires [C13] unlocked: nolocks()
-//@ ensures found: foundV(e, symbol) ==> result.1 == nil && result.0 == lookupV(e, symbol)
+//@ ensures [C12 C04 C11] found: foundV(e, symbol) ==> result.1 == nil && result.0 == lookupV(e, symbol)
 //@ ensures miss: !foundV(e, symbol) ==> result.1 != nil && result.0 == NilValue
 //@ ensures errfresh: result.1 == nil || fresh(payload(result.1))
 // ASSUMPTION (environment class, C01): every value bound in an environment is a valid reflect.Value
